@@ -497,7 +497,7 @@ pub mod handlers {
 //@end
 //@fn src/api/subscriber.rs conflict tags=C17
 //@ ret r
-//@ ensures r.code == Code::FailedPrecondition
+//@ ensures[C17,NEEDS-WITNESS] r.code == Code::FailedPrecondition
 //@end
 
     /// C05 at the RPC surface: every ack id is well-formed and the one seconds value is not negative
